@@ -614,7 +614,8 @@ class DiscreteFourierTransformInverse(DiscreteFourierTransformBase):
             Result of the transform
         """
         if self.halfcomplex:
-            return np.fft.irfftn(x, axes=self.axes)
+            return np.fft.irfftn(x, s=np.take(self.range.shape, self.axes),
+                                 axes=self.axes)
         else:
             if self.sign == '+':
                 return np.fft.ifftn(x, axes=self.axes)
